@@ -270,8 +270,12 @@ def rule_accessors(ctx: Ctx):
     ctx.ob("R-C02-3", "models.CitationBase.span", ok, "span() is (override if not None else token offset) per component", node=sp, mod=m)
     fs = repo.need_func("models.CitationBase.full_span")
     src = " ".join(norm(s) for s in fs.body if not (isinstance(s, ast.Expr) and isinstance(s.value, ast.Constant)))
-    okf = all(x in src for x in (f"start = {S}.full_span_start", f"if start is None: start = {S}.span()[0]", f"end = {S}.full_span_end", f"if end is None: end = {S}.span()[1]",
-                                   "return (start, end)"))
+    rr = [r for r in walk_local(fs) if isinstance(r, ast.Return)]
+    okf = False
+    if len(rr) == 1 and isinstance(rr[0].value, ast.Tuple) and len(rr[0].value.elts) == 2 and all(isinstance(e, ast.Name) for e in rr[0].value.elts):
+        a, b = rr[0].value.elts[0].id, rr[0].value.elts[1].id
+        okf = all(x in src for x in (f"{a} = {S}.full_span_start", f"if {a} is None: {a} = {S}.span()[0]", f"{b} = {S}.full_span_end",
+                                       f"if {b} is None: {b} = {S}.span()[1]"))
     ctx.ob("R-C02-3", "models.CitationBase.full_span", okf, "full_span() falls back, per component, to span()", node=fs, mod=m)
     wp = repo.need_func("models.CitationBase.span_with_pincite")
     calls = {dotted(c.func): c for c in walk_local(wp) if isinstance(c, ast.Call) and dotted(c.func) in ("min", "max")}
@@ -281,7 +285,10 @@ def rule_accessors(ctx: Ctx):
         okw = all(x in tmin for x in (f"{S}.token.start", f"{S}.span_start", "pin_cite_span_start")) and all(
             x in tmax for x in (f"{S}.token.end", f"{S}.span_end", "pin_cite_span_end")) and "is not None" in tmin and "is not None" in tmax
         rets = [r for r in walk_local(wp) if isinstance(r, ast.Return)]
-        okw = okw and len(rets) == 1 and norm(rets[0].value) == "(start, end)"
+        okw = okw and len(rets) == 1 and isinstance(rets[0].value, ast.Tuple) and len(rets[0].value.elts) == 2
+        if okw:
+            defs = {norm(s_.targets[0]): s_.value for s_ in stmts_local(wp.body) if isinstance(s_, ast.Assign)}
+            okw = defs.get(norm(rets[0].value.elts[0])) is calls["min"] and defs.get(norm(rets[0].value.elts[1])) is calls["max"]
     ctx.ob("R-C02-3", "models.CitationBase.span_with_pincite", okw,
            "(min over {token.start, span_start, pin start}, max over {token.end, span_end, pin end}) ignoring None: contains span() by monotonicity of min/max",
            node=wp, mod=m)
